@@ -581,8 +581,10 @@ class FermionicArray(AbelianArray):
             new.phase_global(inplace=True)
 
         if phase_dual:
+            # n.b. same legs as `conj(phase_dual=True)`: those that were dual
+            # before conjugation, i.e. are now non-dual
             axs_conj = tuple(
-                ax for ax, ix in enumerate(new_indices) if ix.dual
+                ax for ax, ix in enumerate(new_indices) if not ix.dual
             )
             new.phase_flip(*axs_conj, inplace=True)
 
